@@ -91,6 +91,7 @@ def run(chk: Check, ctx: Any) -> None:
         "that stay in the output, in both compilers, and a missing label is rejected (R4); the three routine tables grow together (R5). "
         "Not decided: meaning of raw user-written jump opcodes."
     )
+    chk.rule("C03-R6", "compile() interpreted on the program families, macro projects, routine-kind samples and SsbScript: offsets unique across routines, every jump-carrying op has exactly its table's parameter count with the target last and naming an op of the result, no label or label-jump object remains, the three tables have one length")
     chk.rule("C03-R1", "OpsLabelJumpToRemover appends only real ops (root of a label jump; neither label nor label jump) and stores one op list per input routine on every path")
     chk.rule("C03-R2", "the jump target is appended (last) exactly once from label_offsets[label id]; #params at each jump-carrying emission site = OPS_WITH_JUMP_TO_MEM_OFFSET index; the table covers all branch/case ops, Jump and Call")
     chk.rule("C03-R3", "every SsbOperation offset in compiler code is drawn from the op counter, a blueprint's pre-allocated number, or the offset of the op it replaces; Counter only increases")
@@ -424,3 +425,6 @@ def run(chk: Check, ctx: Any) -> None:
                 isinstance(v, ast.Attribute) and v.attr == "routine_ops" and not txt.startswith("self."))
             chk.decide("C03-R1", fkey(f, st), ok or None, f,
                        f"routine_ops is assigned from {txt}, not from OpsLabelJumpToRemover(...).routines", "routine_ops comes out of the remover", node=st)
+    from .oplist import closed_oplist_rule
+    closed_oplist_rule(chk, ctx, "C03-R6", getattr(ctx, "tier", "quick") == "thorough")
+
